@@ -35,6 +35,7 @@ struct Sol : public squids::SQuIDS {
 struct Built {
   std::unique_ptr<Sol> s; std::vector<double> x; double tau; int d; unsigned nx, nrh;
   std::vector<std::vector<std::vector<double>>> st;  // [ix][ir] components as stored
+  double last_x = 0;
   std::string desc;
 };
 
@@ -43,6 +44,7 @@ static Built build(ByteSource& s, int force_d = 0) {
   b.d = force_d ? force_d : gen_dim(s);
   b.nx = 2 + s.choose(7); b.nrh = 1 + s.choose(2);
   double ti = s.flag() ? 0.0 : s.num(6);
+  bool want_fast = false; (void)want_fast;
   b.s.reset(new Sol(b.nx, b.d, b.nrh, ti));
   Sol& S = *b.s;
   unsigned gk = s.choose(3);
@@ -50,20 +52,24 @@ static Built build(ByteSource& s, int force_d = 0) {
   else if (gk == 1) { double a = std::pow(10.0, -3 + 4 * s.unif01()); S.Set_xrange(a, a * std::pow(10.0, 0.1 + 3 * s.unif01()), "log"); }
   else { std::vector<double> xs(b.nx); double cur = s.num(6); for (auto& v : xs) { v = cur; cur += 1e-3 + 3 * s.unif01(); } S.Set_xrange(xs); }
   b.x = S.Get_xrange();
+  // "fast" class: huge level splittings observed after a tiny elapsed time (phases of order one with |t-t_ini| ~ 1e-16)
+  bool fast = s.choose(6) == 0; int fast_exp = 50 + (int)s.choose(8);
   S.hA.resize(b.nrh); S.hB.resize(b.nrh);
   for (unsigned ir = 0; ir < b.nrh; ir++) {
     S.hA[ir].assign(b.d * b.d, 0.0); S.hB[ir].assign(b.d * b.d, 0.0);
     unsigned hk = s.choose(4);  // 0 zero, 1 constant, 2,3 x-dependent
     if (s.flag()) S.hA[ir][0] = s.num(4);
     for (int k = 1; k < b.d; k++) { if (hk >= 1) S.hA[ir][b.d * k + k] = s.num(4); if (hk >= 2) S.hB[ir][b.d * k + k] = s.dense(); }
+    if (fast) for (int k = 1; k < b.d; k++) S.hA[ir][b.d * k + k] = std::ldexp(s.dense() + 0.1 * k, fast_exp);  // level splittings ~2^fast_exp
   }
   S.hi = gen_dense(s, b.d);
   b.st.resize(b.nx);
   for (unsigned ix = 0; ix < b.nx; ix++) { b.st[ix].resize(b.nrh); for (unsigned ir = 0; ir < b.nrh; ir++) { b.st[ix][ir] = gen_components(s, b.d, nullptr, 10); for (int k = 0; k < b.d * b.d; k++) S.rho(ix, ir)[k] = b.st[ix][ir][k]; } }
   // clock history
   int nseg = (int)s.choose(4);
-  for (int i = 0; i < nseg; i++) { double dt = s.choose(3) == 0 ? 0.0 : fabs(s.num(7)); S.Evolve(dt); }
-  bool numeric = s.choose(4) == 1;
+  if (fast) { nseg = 1 + (int)s.choose(2); for (int i = 0; i < nseg; i++) S.Evolve(std::ldexp(0.5 + s.unif01(), -fast_exp - (int)s.choose(4))); }
+  else for (int i = 0; i < nseg; i++) { double dt = s.choose(3) == 0 ? 0.0 : fabs(s.num(7)); S.Evolve(dt); }
+  bool numeric = !fast && s.choose(4) == 1;
   if (numeric) {
     S.Set_CoherentRhoTerms(true); S.Set_rel_error(1e-9); S.Set_abs_error(1e-9); S.Set_h(1e-3);
     S.Evolve(0.05 + 0.2 * s.unif01());
@@ -72,7 +78,7 @@ static Built build(ByteSource& s, int force_d = 0) {
     if (s.flag()) S.Evolve(fabs(s.num(5)));
   }
   b.tau = S.Get_t() - S.Get_t_initial();
-  b.desc = fmt("solver d=%d nx=%u nrhos=%u grid=%u x=[%.17g..%.17g] t_ini=%.17g tau=%.17g numeric=%d", b.d, b.nx, b.nrh, gk, b.x.front(), b.x.back(), ti, b.tau, (int)numeric);
+  b.desc = fmt("solver d=%d nx=%u nrhos=%u grid=%u x=[%.17g..%.17g] t_ini=%.17g tau=%.17g numeric=%d%s", b.d, b.nx, b.nrh, gk, b.x.front(), b.x.back(), ti, b.tau, (int)numeric, fast ? " fast-levels" : "");
   return b;
 }
 static ld norm2c(const std::vector<double>& c) { ld s = 0; for (double x : c) s += (ld)x * x; return sqrtl(s); }
@@ -86,7 +92,10 @@ static ld ref_expect(const std::vector<double>& h, ld tau, const Mat& rho, const
   return trace(R * O).real();
 }
 
-void run_case(ByteSource& s, CaseInfo& ci) {
+static void run_case_body(ByteSource& s, CaseInfo& ci);
+// the interpolating overloads keep per-thread scratch buffers: each case runs on its own thread so that it is a pure function of its bytes
+void run_case(ByteSource& s, CaseInfo& ci) { in_fresh_thread([&] { run_case_body(s, ci); }); }
+static void run_case_body(ByteSource& s, CaseInfo& ci) {
   bool two = s.choose(3) == 1;
   Built B1 = build(s);
   Built B2; if (two) B2 = build(s, 2 + (B1.d - 2 + 1 + (int)s.choose(4)) % 5);
@@ -101,8 +110,14 @@ void run_case(ByteSource& s, CaseInfo& ci) {
     std::vector<double> o = s.flag() ? gen_dense(s, d) : gen_components(s, d, nullptr, 10);
     SU_vector O = make_vec(o, d);
     Mat MO = toM(o, d);
-    unsigned xc = s.choose(12);
-    static const char* names[] = {"node", "node+ulp", "node-ulp", "midpoint", "interior", "first", "last", "just-below", "far-below", "just-above", "far-above", "inf"};
+    // the stored states may change between two queries (a derived class rewrites them; t does not move): results must follow
+    if (q > 0 && s.choose(3) == 0) {
+      unsigned mx = s.choose(B.nx);
+      for (unsigned mr = 0; mr < B.nrh; mr++) { std::vector<double> nv = gen_dense(s, d); for (int c = 0; c < d * d; c++) S.rho(mx, mr)[c] = nv[c]; B.st[mx][mr] = nv; }
+      ci.label("state-rewritten-between-queries");
+    }
+    unsigned xc = s.choose(13);
+    static const char* names[] = {"node", "node+ulp", "node-ulp", "midpoint", "interior", "first", "last", "just-below", "far-below", "just-above", "far-above", "inf", "same-as-previous"};
     unsigned k = s.choose(B.nx);
     double xi;
     switch (xc) {
@@ -117,8 +132,10 @@ void run_case(ByteSource& s, CaseInfo& ci) {
       case 8: xi = B.x.front() - (fabs(B.x.front()) + 1) * (1 + 5 * s.unif01()); break;
       case 9: xi = ByteSource::ulp_step(B.x.back(), 1); break;
       case 10: xi = B.x.back() + (fabs(B.x.back()) + 1) * (1 + 5 * s.unif01()); break;
-      default: xi = s.flag() ? INFINITY : -INFINITY; break;
+      case 11: xi = s.flag() ? INFINITY : -INFINITY; break;
+      default: xi = B.last_x; break;  // the same x as the previous query on this solver
     }
+    B.last_x = xi;
     ci.label(std::string("x-") + names[xc]);
     std::string ctx = fmt("%s | query %d: irho=%u x=%.17g (%s) O=%s", B.desc.c_str(), q, ir, xi, names[xc], vec_str(o).c_str());
     samp = ctx;
